@@ -8,6 +8,8 @@
 
 package protojson
 
+import "reflect"
+
 func requires(c bool) {
 	if !c {
 		panic("verif: requires violated")
@@ -133,7 +135,7 @@ func arg[T any](i int) T { var z T; return z }
 
 // identical: a and b are the same value (for strings, a sufficient condition for a == b that
 // keeps uninterpreted spec functions congruent).
-func identical[T comparable](a, b T) bool { return a == b }
+func identical(a, b any) bool { return reflect.DeepEqual(a, b) }
 
 // unchangedElems: the elements of s hold the values they held on entry.
 func unchangedElems(s any) bool { return true }
